@@ -177,11 +177,14 @@ func c05Programs(tier string) []*Spec {
 			out = append(out, sp)
 			// pop mode
 			sp = &Spec{Name: "c05-pop", Refresh: rf, Q: q, Pop: true}
-			sp.Bars = []BarSpec{{Total: 1}, {Total: 2}, {Total: 1, NoPop: true}}
-			sp.Main = []Op{{K: "add", B: 0}, {K: "add", B: 1}, {K: "add", B: 2}}
+			// bar 3 keeps the container rendering for several cycles after the others have finished
+			sp.Bars = []BarSpec{{Total: 1}, {Total: 2}, {Total: 1, NoPop: true}, {Total: 1}}
+			sp.Main = []Op{{K: "add", B: 0}, {K: "add", B: 1}, {K: "add", B: 2}, {K: "add", B: 3}}
 			sp.Clients = [][]Op{{{K: "incr", B: 0, N: 1}, {K: "incr", B: 2, N: 1}}, completeOps(1, 2)}
 			if rf == "manual" {
-				sp.Clients = append(sp.Clients, []Op{{K: "refresh"}, {K: "refresh"}, {K: "refresh"}, {K: "refresh"}, {K: "refresh"}, {K: "refresh"}})
+				sp.Clients = append(sp.Clients, []Op{{K: "refresh"}, {K: "refresh"}, {K: "refresh"}, {K: "refresh"}, {K: "refresh"}, {K: "refresh"}, {K: "incr", B: 3, N: 1}, {K: "refresh"}, {K: "refresh"}, {K: "refresh"}})
+			} else {
+				sp.Clients = append(sp.Clients, []Op{{K: "sleep", N: 650}, {K: "incr", B: 3, N: 1}})
 			}
 			sp.Notifier = true
 			out = append(out, sp)
